@@ -52,7 +52,7 @@ CLAIMED = {
  "C18": ("exploration",
    "deterministic simulation of caller threads: real library code in real goroutines inside a testing/synctest bubble, one runnable task at a time chosen from the tape by a seeded strategy (random, PCT, run-until-blocked, round robin) at AST-instrumented Lock/recv/close/pool sites and at the ReadAt/Getter/callback seams; porcupine linearizability check of the cache history against a sequential model plus invariants",
    "Seeded search over interleavings at the cache protocol's synchronisation points with losing races forced rather than hoped for; oracles: sequential equivalence of Get/DecodeStream, identical Go value per (extractor, reference, type), linearizability of the Decode/DecodeExclusive/StoreOrLoadPair history (porcupine), exclusive-decode invariants (no overlap, one success, waiters do not re-run), scheduler-detected deadlock, pool discipline, transient I/O faults must not poison the cache, independent files must not interfere through package state.",
-   "The cooperative scheduler serialises everything, so data races between two yield points are invisible to it by construction (stated in the evidence); yield points are derived from the working tree by cmd/instr at check time (no hook committed to /repo), so moved or added lock sites are picked up automatically. Small schedule spaces are sampled, not enumerated.",
+   "The cooperative scheduler serialises everything, so data races between two yield points are invisible to it by construction; a second phase therefore runs the same kinds of workload with real goroutines and the uninstrumented library under go test -race (a report is a true race, replayed by seed, not by schedule); yield points are derived from the working tree by cmd/instr at check time (no hook committed to /repo), so moved or added lock sites are picked up automatically. Small schedule spaces are sampled, not enumerated.",
    "DESIGN.md section 4 C18"),
 
  "C05": ("exploration",
